@@ -1,9 +1,55 @@
 (* C01 State machine safety
-   Full-strength statement: C01_statement (Cluster/Statements.v). Proved so far: the theorems below; what is
-   not yet proved is decided on every run by the lock-step co-simulation (model = implementation on every
-   explored schedule) together with the monitors run on the implementation's own observations. *)
-From RaftV Require Import Cluster.Statements Proofs.RVSpec Proofs.AESpec Proofs.CommitSpec.
+   Full-strength statement: C01_statement (Cluster/Statements.v). Proved at cluster level for every execution
+   without membership changes and without snapshots: C01_state_machine_safety_partial (any two applications of
+   an index, on any nodes, in any incarnations, at any two points of the execution, carry the same term and
+   bytes; uses excluded middle, axiom `classic`) and C01_apply_order (between two restores the state machine is
+   handed operations in strictly increasing index order). With snapshots: decided on every run by the
+   lock-step co-simulation together with the monitors run on the implementation's own observations. *)
+From RaftV Require Import Cluster.World Cluster.Statements Proofs.RVSpec Proofs.AESpec Proofs.CommitSpec.
+From RaftV Require Import Proofs.ConfStatic Proofs.ApplyOrder Proofs.LCFinal.
 Open Scope N_scope.
+
+(* cluster level, every schedule without membership changes and snapshots: C01_statement restricted to
+   snapshot-free executions *)
+Theorem C01_state_machine_safety_partial : forall ids boot et ld ls1 ls2,
+  static (ls1 ++ ls2) = true -> nosnap (ls1 ++ ls2) = true ->
+  let w1 := run (init_world ids boot et ld) ls1 in
+  let w2 := run w1 ls2 in
+  forall i t p t' p', applied_in w1 i t p -> applied_in w2 i t' p' -> t = t' /\ p = p'.
+Proof. exact state_machine_safety_nosnap. Qed.
+Print Assumptions C01_state_machine_safety_partial.
+
+(* not vacuous: a schedule (3 nodes) in which node 0 is elected in term 1, replicates, commits and applies the
+   operation 7 at index 3 (first point: c07_ls1), then node 1 applies it and is elected in term 2 (second point) *)
+Definition c07_ls1 : list label :=
+  [LTick 4; LElection 0; LElectionRun 0; LTask 0; LTask 0; LDeliver 0; LReply 0; LElectionRun 0; LTask 0; LTask 0;
+   LDeliver 1; LReply 1; LDeliver 2; LReply 2; LTask 0; LTask 0; LDeliver 4; LDeliver 5;
+   LReply 4; LReply 5; LCommit 0; LApply 0; LSubmit 0 OReplicated 7; LTask 0; LTask 0;
+   LDeliver 6; LDeliver 7; LReply 6; LReply 7; LCommit 0; LApply 0; LTask 0; LTask 0].
+Definition c07_ls2 : list label :=
+  [LDeliver 8; LDeliver 9; LApply 1; LTick 20; LElection 1; LElectionRun 1; LTask 1; LTask 1;
+   LDeliver 11; LReply 11; LElectionRun 1; LTask 1; LTask 1; LDeliver 13; LReply 13].
+Definition c07_view (w : world) :=
+  map (fun n => (n_role n, n_frozen n, n_term n, n_commit n, n_applies n, map (fun e => (e_index e, e_term e)) (n_log n))) (w_nodes w).
+Example C01_cluster_not_vacuous :
+  static (c07_ls1 ++ c07_ls2) = true /\ nosnap (c07_ls1 ++ c07_ls2) = true /\
+  let w1 := run (init_world [0; 1; 2] [0; 1; 2] 4 2) c07_ls1 in
+  let w2 := run w1 c07_ls2 in
+  c07_view w1 = [(Leader, false, 1, 3, [(3, 1, 7)], [(0, 0); (1, 1); (2, 1); (3, 1)]);
+                 (Follower, false, 1, 2, [], [(0, 0); (1, 1); (2, 1); (3, 1)]);
+                 (Follower, false, 1, 2, [], [(0, 0); (1, 1); (2, 1); (3, 1)])] /\
+  c07_view w2 = [(Leader, false, 1, 3, [(3, 1, 7)], [(0, 0); (1, 1); (2, 1); (3, 1)]);
+                 (Leader, false, 2, 3, [(3, 1, 7)], [(0, 0); (1, 1); (2, 1); (3, 1); (4, 2)]);
+                 (Follower, false, 2, 3, [], [(0, 0); (1, 1); (2, 1); (3, 1)])].
+Proof. split; [reflexivity|]. split; [reflexivity|]. cbn zeta. split; vm_compute; reflexivity. Qed.
+
+(* second sentence of C01: the applications of a node since its last restore are in strictly increasing index
+   order, all at or below its applied index *)
+Theorem C01_apply_order : forall ids boot et ld ls, static ls = true -> nosnap ls = true ->
+  forall n, In n (w_nodes (run (init_world ids boot et ld) ls)) ->
+    increasing 0 (n_applies n) /\ (forall i t p, In (i, t, p) (n_applies n) -> i <= n_applied n).
+Proof. exact apply_order. Qed.
+Print Assumptions C01_apply_order.
 
 (* RequestVote, every voter state x every request *)
 Theorem C01_prevote_pure : forall now n q, rv_prevote q = true -> fst (h_request_vote now n q) = n.
